@@ -43,6 +43,16 @@ def evalC {R} (sr : SR R) (w : Int → R) (c : Circuit) : R :=
   | some r => r
   | none => sr.one
 
+/-- Array-based evaluation used by the driver on large circuits (same fold as `evalLines`, O(1) child lookup). -/
+def evalLineArr {R} (sr : SR R) (w : Int → R) (acc : Array R) : NNode → R
+  | .lit l => w l
+  | .and cs => cs.foldl (fun p c => sr.times p (acc.getD c sr.zero)) sr.one
+  | .or _ cs => cs.foldl (fun p c => sr.plus p (acc.getD c sr.zero)) sr.zero
+
+def evalCArr {R} (sr : SR R) (w : Int → R) (c : Circuit) : R :=
+  let vals := c.foldl (fun (acc : Array R) nd => acc.push (evalLineArr sr w acc nd)) #[]
+  if h : 0 < vals.size then vals[vals.size - 1] else sr.one
+
 /-! ### syntactic validator -/
 
 def insertSorted (x : Nat) : List Nat → List Nat
